@@ -18,7 +18,7 @@ type C11Case struct {
 
 var c11Counts = map[string]int{"quick": 60_000, "thorough": 1_500_000}
 
-func c11Gen(r *gen.Rng, tier string, idx int) interface{} {
+func c11GenPlain(r *gen.Rng, tier string, idx int) interface{} {
 	o := gen.FormulaOpts{MaxDepth: r.Range(1, 5), NbVars: r.Range(1, 9), Consts: r.Chance(1, 2), Xor: true, NegUniq: true, MaxGroup: 0}
 	if r.Chance(1, 2) {
 		o.MaxGroup = r.Range(1, 9)
@@ -128,4 +128,12 @@ func init() {
 			"thorough": {"nil_answers": 50000, "model_answers": 500000},
 		},
 	})
+}
+
+func c11Gen(r *gen.Rng, tier string, idx int) interface{} {
+	c := c11GenPlain(r, tier, idx).(*C11Case)
+	if r.Chance(1, 8) { // variable names that look like the translation's own auxiliary names
+		gen.RenameAdversarial(r, c.F)
+	}
+	return c
 }
